@@ -1036,6 +1036,10 @@ class Scratch:
     def __exit__(self, *a):
         tempfile.tempdir = self.old
         shutil.rmtree(self.dir, ignore_errors=True)
+        try:
+            os.rmdir(SCRATCH)                # only if nothing else (another run, a worktree) lives there
+        except OSError:
+            pass
         return False
 
 
